@@ -469,140 +469,132 @@ def r5_scopes(ctx):
 
 
 def r6_builder(ctx):
+    """K6 on every structuring method of ConfigurationBuilder (the real builder, Loop / Branch / Scope / Block constructors
+    inlined): starting from a builder holding [c0], each method appends exactly one node (or the given components) at
+    the end, built from the condition it was given and from the components the body closure(s) produced on a FRESH
+    builder, with if-body and else-body in their roles."""
+    from absint import Interp, Sym, Agg, TOP, some, NONE, std_oracle, chain
+    from collmodel import coll_oracle, install, Vec, load, new_vec
     F = ctx.facts
-    CB = "mahf::configuration::ConfigurationBuilder::"
-    table = {
-        "while_": (CF + "Loop::new", 2),
-        "if_": (CF + "Branch::new", 2),
-        "if_else_": (CF + "Branch::new_with_else", 3),
-        "scope_": (CF + "Scope::new", 1),
-    }
-    for nm, (ctor, nargs) in table.items():
-        fn = F.fn(CB + nm)
-        body = fn.body
-        sites = body.call_sites(lambda c: c.get("key") == ctor)
-        if not ctx.check(len(sites) == 1, "C03.R6", fn.key, "constructs", "%s does not construct exactly one %s" % (nm, ctor), loc=fn.loc()):
-            continue
-        bb, t = sites[0]
-        args = [body.expr_of_op(a) for a in t["args"]]
-        good = True
-        why = ""
-        # condition argument is the builder's condition parameter (arg 2)
-        off = 0
-        if nm != "scope_":
-            leaf, _, _ = origin(args[0])
-            good = good and leaf == ("arg", 2)
-            why += "cond<-%s " % (leaf,)
-            off = 1
-        # body arguments: components of body_k(ConfigurationBuilder::new()), in parameter order
-        for j in range(off, nargs):
-            e = args[j]
-            closure_calls = [x for x in subexprs(e) if x[0] == "call" and x[3]["f"].get("name") in ("call_once",)]
-            okj = False
-            if closure_calls:
-                cc = closure_calls[0]
-                leaf, _, _ = origin(cc[2][0])
-                want_arg = 2 + j if nm != "scope_" else 2
-                barg = strip(cc[2][1]) if len(cc[2]) > 1 else None
-                fresh = barg is not None and any(x[0] == "call" and x[1] == CB + "new" for x in subexprs(barg))
-                okj = leaf == ("arg", want_arg) and fresh
-                why += "body%d<-%s fresh=%s " % (j, leaf, fresh)
-            good = good and okj
-        ctx.check(good, "C03.R6", fn.key, "argument-roles", "%s passes the wrong arguments to %s (%s)" % (nm, ctor, why), detail=why, loc=fn.loc(t.get("line")))
-        # result is appended with do_ / push to self
-        res_use = result_disposition(body, bb)
-        dos = body.call_sites(lambda c: c.get("key") in (CB + "do_", "alloc::vec::Vec::push"))
-        okd = False
-        for b2, t2 in dos:
-            e0 = body.expr_of_op(t2["args"][0])
-            e1 = body.expr_of_op(t2["args"][1])
-            leaf, _, _ = origin(e0)
-            if leaf == ("arg", 1) and any(x[0] == "call" and x[1] == ctor for x in subexprs(e1)):
-                okd = on_every_ok_path(body, b2)
-        ctx.check(okd, "C03.R6", fn.key, "appended", "%s does not append the constructed node to its own component list" % nm, loc=fn.loc())
-    # do_ pushes its argument to self.components and returns self
-    fn = F.fn(CB + "do_")
-    body = fn.body
-    comp = F.field_index("mahf::configuration::ConfigurationBuilder", "components")
-    ps = body.call_sites(lambda c: c.get("key") == "alloc::vec::Vec::push")
-    good = len(ps) == 1
-    if good:
-        e0 = body.expr_of_op(ps[0][1]["args"][0])
-        e1 = body.expr_of_op(ps[0][1]["args"][1])
-        good = self_field(e0) == comp and origin(e1)[0] == ("arg", 2) and on_every_ok_path(body, ps[0][0]) and enclosing_loop(body, ps[0][0]) is None
-    ctx.check(good, "C03.R6", fn.key, "push-last", "do_ does not push its component at the end of self.components exactly once", loc=fn.loc())
-    # do_many_: pushes every element, in order
-    fn = F.fn(CB + "do_many_")
-    body = fn.body
-    ps = body.call_sites(lambda c: c.get("key") in ("alloc::vec::Vec::push", "core::iter::traits::collect::Extend::extend", "alloc::vec::Vec::extend", CB + "do_"))
-    good = len(ps) == 1
-    if good:
-        t = ps[0][1]
-        e1 = body.expr_of_op(t["args"][1])
-        leaf, cs, _ = origin(e1)
-        good = leaf == ("arg", 2) and all(c in ITER_ADAPTERS_OK for c in cs)
-    ctx.check(good, "C03.R6", fn.key, "push-all-in-order", "do_many_ does not append every component of its argument in order", loc=fn.loc())
-    # do_if_some_
-    fn = F.fn(CB + "do_if_some_")
-    body = fn.body
-    ps = body.call_sites(lambda c: c.get("key") in (CB + "do_", "alloc::vec::Vec::push"))
-    good = len(ps) == 1
-    if good:
-        e1 = body.expr_of_op(ps[0][1]["args"][1])
-        good = origin(e1)[0] == ("arg", 2)
-    ctx.check(good, "C03.R6", fn.key, "push-some", "do_if_some_ does not append the contained component", loc=fn.loc())
-    # build / build_component = Block::new(self.components)
-    for nm in ("build", "build_component"):
-        fn = F.fn(CB + nm)
-        body = fn.body
-        bs = body.call_sites(lambda c: c.get("key") == CF + "Block::new")
-        good = len(bs) == 1
-        if good:
-            e = body.expr_of_op(bs[0][1]["args"][0])
-            leaf, cs, fields = origin(e)
-            good = leaf == ("arg", 1) and fields[:1] == [comp] and not [c for c in cs if c not in ITER_ADAPTERS_OK]
-            # and the result is what is returned (possibly wrapped in Configuration::new)
-            r = body.expr_of_local(0)
-            good = good and any(x[0] == "call" and x[1] == CF + "Block::new" for x in subexprs(r))
-        ctx.check(good, "C03.R6", fn.key, "block-of-components", "%s does not return Block::new(self.components)" % nm, loc=fn.loc())
-    # constructors store their arguments in the fields of the same role
-    roles = {
-        CF + "Loop::new": (CF + "Loop", {"condition": 1, "body": 2}),
-        CF + "Branch::new": (CF + "Branch", {"condition": 1, "if_body": 2, "else_body": None}),
-        CF + "Branch::new_with_else": (CF + "Branch", {"condition": 1, "if_body": 2, "else_body": 3}),
-        CF + "Scope::new_with": (CF + "Scope", {"state_init": 1, "body": 2, "states_merge": 3}),
-        CF + "Block::new": (CF + "Block", {"0": 1}),
-    }
-    for ctor, (adt, fields) in roles.items():
-        fn = F.fn(ctor)
-        body = fn.body
-        aggs = []
-        for b in sorted(body.normal_blocks()):
-            for st in body.stmts(b):
-                if st[0] == "=" and st[2][0] == "agg" and st[2][1].get("adt") == adt:
-                    aggs.append((b, st))
-        if not ctx.check(len(aggs) == 1, "C03.R6", fn.key, "one-aggregate", "%s does not build exactly one %s" % (ctor, adt), loc=fn.loc()):
-            continue
-        st = aggs[0][1]
-        good = True
-        why = []
-        for fname, argi in fields.items():
-            fi = F.field_index(adt, fname)
-            e = body.expr_of_op(st[2][2][fi])
-            if argi is None:
-                s = strip(e)
-                okf = s[0] == "agg" and s[3] == "None"
-            else:
-                leaf, cs, _ = origin(e)
-                okf = leaf == ("arg", argi) and not [c for c in cs if c not in ("into", "into_iter", "collect", "from")]
-            why.append("%s<-%s" % (fname, expr_str(e)[:60]))
-            good = good and okf
-        ctx.check(good, "C03.R6", fn.key, "field-roles", "%s stores its arguments in the wrong fields: %s" % (ctor, why), detail="; ".join(why), loc=fn.loc())
-    # Scope::new = new_with(no-op init, body, no-op merge)
-    fn = F.fn(CF + "Scope::new")
-    bs = fn.body.call_sites(lambda c: c.get("key") == CF + "Scope::new_with")
-    good = len(bs) == 1 and origin(fn.body.expr_of_op(bs[0][1]["args"][1]))[0] == ("arg", 1)
-    ctx.check(good, "C03.R6", fn.key, "delegates", "Scope::new does not pass its body to new_with", loc=fn.loc())
+    CB = "mahf::configuration::ConfigurationBuilder"
+    comp_i = F.field_index(CB, "components")
+    nfields = len(F.adt(CB)["variants"][0]["fields"])
+    from_impl = F.fn_opt("<alloc::boxed::Box as core::convert::From>::from")
+    if from_impl is None:
+        raise AnchorMissing("impl From<I: IntoIterator<Item = Box<dyn Component>>> for Box<dyn Component> not found")
+
+    def builder(vid):
+        vals = [Sym("phantom")] * nfields
+        vals[comp_i] = Vec(vid)
+        return Agg("adt", CB, "ConfigurationBuilder", vals)
+
+    def describe(p, v, depth=0):
+        """structure of a component value: leaf symbols, and Block / Loop / Branch / Scope with their parts"""
+        h = p.mstate.get("heap", {})
+        if depth > 8:
+            return "?"
+        if isinstance(v, Sym):
+            return v.tag
+        if isinstance(v, Vec):
+            return [describe(p, x, depth + 1) for x in h.get(v.vid, ())]
+        if isinstance(v, Agg) and v.name == CF + "Block":
+            inner = describe(p, v.fields[0], depth + 1)
+            return inner if isinstance(inner, list) else ["?"]
+        if isinstance(v, Agg) and v.name in (CF + "Loop", CF + "Branch", CF + "Scope"):
+            f = {x["name"]: x["i"] for x in F.adt(v.name)["variants"][0]["fields"]}
+            out = {"node": v.name.split("::")[-1]}
+            for k in ("condition", "body", "if_body", "else_body"):
+                if k in f:
+                    out[k] = describe(p, v.fields[f[k]], depth + 1)
+            return out
+        if isinstance(v, Agg) and v.name == "core::option::Option":
+            return describe(p, v.fields[0], depth + 1) if v.variant == "Some" else None
+        return "?"
+
+    def run(method, args, bodies):
+        fn = F.fn(CB + "::" + method)
+        fresh = []
+
+        def oracle(interp, env, f, args_, t, bb, path):
+            k = f.get("key", "")
+            nm = f.get("name")
+            if nm in ("call_once", "call") and args_ and isinstance(load(interp, env, args_[0]), Sym) and load(interp, env, args_[0]).tag in bodies:
+                tag = load(interp, env, args_[0]).tag
+                b = load(interp, env, args_[1])
+                if isinstance(b, Agg) and b.kind == "tuple" and b.fields:
+                    b = b.fields[0]
+                inner = describe_env(interp, b)
+                fresh.append((tag, inner))
+                v = new_vec(interp, [Sym("from:" + tag)])
+                vals = [Sym("phantom")] * nfields
+                vals[comp_i] = v
+                return Agg("adt", CB, "ConfigurationBuilder", vals)
+            if k in ("core::convert::Into::into", "core::convert::From::from") and "dyn mahf::components::Component<" in ((f.get("gargs") or ["", ""])[-1 if nm == "into" else 0]):
+                src = (f.get("gargs") or ["", ""])[0 if nm == "into" else -1]
+                if "dyn mahf::components::Component<" in src:
+                    return args_[0]
+                outs = interp.call_body(from_impl, [args_[0]])
+                if len(outs) == 1 and outs[0][2] == "return":
+                    interp.mstate.clear()
+                    interp.mstate.update(outs[0][3])
+                    return outs[0][0]
+            return TOP
+
+        def describe_env(interp, b):
+            if isinstance(b, Agg) and b.name == CB and isinstance(b.fields[comp_i], Vec):
+                return list(interp.mstate.get("heap", {}).get(b.fields[comp_i].vid, ()))
+            return None
+        inl = lambda k: k.startswith("mahf::configuration::ConfigurationBuilder::") or k.startswith(CF) or k.startswith("<" + CF) or k == from_impl.key
+        it = install(Interp(fn.body, chain(oracle, coll_oracle, std_oracle), [builder("comps")] + args, facts=F, inline=inl, max_visits=12))
+        it.init_state = {"heap": {"comps": (Sym("c0"),), "many": (Sym("m1"), Sym("m2"))}, "next_vec": 0}
+        outs = []
+        for p in it.run():
+            if p.end != "return" or not (isinstance(p.ret, Agg) and p.ret.name == CB):
+                outs.append(("%s %s" % (p.end, p.ret), None))
+                continue
+            outs.append((describe(p, p.ret.fields[comp_i]), list(fresh)))
+        return fn, outs
+
+    cases = [
+        ("do_", [Sym("x")], {}, ["c0", "x"]),
+        ("do_many_", [Vec("many")], {}, ["c0", "m1", "m2"]),
+        ("do_if_some_", [some(Sym("x"))], {}, ["c0", "x"]),
+        ("do_if_some_", [NONE], {}, ["c0"]),
+        ("while_", [Sym("cond"), Sym("bodyfn")], {"bodyfn"}, ["c0", {"node": "Loop", "condition": "cond", "body": ["from:bodyfn"]}]),
+        ("if_", [Sym("cond"), Sym("bodyfn")], {"bodyfn"}, ["c0", {"node": "Branch", "condition": "cond", "if_body": ["from:bodyfn"], "else_body": None}]),
+        ("if_else_", [Sym("cond"), Sym("iffn"), Sym("elsefn")], {"iffn", "elsefn"},
+         ["c0", {"node": "Branch", "condition": "cond", "if_body": ["from:iffn"], "else_body": ["from:elsefn"]}]),
+        ("scope_", [Sym("bodyfn")], {"bodyfn"}, ["c0", {"node": "Scope", "body": ["from:bodyfn"]}]),
+    ]
+    n = 0
+    for method, args, bodies, want in cases:
+        fn, outs = run(method, args, bodies)
+        n += 1
+        bad = None
+        if len(outs) != 1:
+            bad = "is not decided (%d outcomes)" % len(outs)
+        else:
+            got, fresh = outs[0]
+            if got != want:
+                bad = "yields the components %s, expected %s" % (got, want)
+            elif fresh is not None and any(inner != [] for (_t, inner) in fresh):
+                bad = "hands a body closure a builder that is not fresh: %s" % (fresh,)
+            elif fresh is not None and sorted(t for t, _ in fresh) != sorted(bodies):
+                bad = "calls the body closures %s, expected each of %s once" % ([t for t, _ in fresh], sorted(bodies))
+        ctx.check(bad is None, "C03.R6", fn.key, "appends-the-node-it-names:%s" % ("none" if args and args[0] is NONE else "some" if method == "do_if_some_" else method),
+                  "%s(%s) on a builder holding [c0] %s" % (method, ", ".join(getattr(a, "tag", "…") if not (isinstance(a, Agg)) else a.variant for a in args), bad), loc=fn.loc())
+    # build(): the configuration runs the block of all components, in order
+    fn = F.fn(CB + "::build")
+    it = install(Interp(fn.body, chain(coll_oracle, std_oracle), [builder("comps")], facts=F,
+                        inline=lambda k: k.startswith("mahf::configuration::") or k.startswith(CF) or k.startswith("<mahf::configuration::"), max_visits=8))
+    it.init_state = {"heap": {"comps": (Sym("c0"), Sym("c1"))}, "next_vec": 0}
+    outs = []
+    for p in it.run():
+        r = p.ret
+        root = r.fields[0] if isinstance(r, Agg) and r.name == "mahf::configuration::Configuration" and r.fields else None
+        outs.append(describe(p, root) if root is not None else "%s %s" % (p.end, r))
+    ctx.check(outs == [["c0", "c1"]], "C03.R6", fn.key, "build-is-the-block-of-all-components", "build() on components [c0, c1] yields %s" % outs, loc=fn.loc())
+    ctx.count("builder_methods_evaluated", n + 1)
 
 
 LIFECYCLE_FILES = ("src/components/control_flow.rs", "src/configuration.rs", "src/state/mod.rs", "src/state/require.rs",
